@@ -454,6 +454,71 @@ static std::string do_read_early(const std::string & line) {
     return out;
 }
 
+// FK <k> <hex> : read session; the inflating worker is parked just before its (k+1)-th operation on the compressed file
+// (every operation takes CompressedFile's mutex), close() is called, and the worker is released as soon as close() has closed
+// the fstream — the close takes effect exactly between two operations of the worker.  Needs the sched build (steering lives
+// in harness/sched/shim.h); on the plain build it is an ordinary early close.
+static std::string do_close_at(const std::string & line) {
+    std::istringstream ss(line);
+    std::string cmd, hex;
+    long k = 0;
+    ss >> cmd >> k >> hex;
+    std::vector<unsigned char> b = hex == "-" ? std::vector<unsigned char>() : rt_unhex("x" + hex);
+    std::string path = g_tmp + ".k.blf";
+    {
+        std::ofstream o(path, std::ios::binary | std::ios::trunc);
+        o.write(reinterpret_cast<const char *>(b.data()), static_cast<std::streamsize>(b.size()));
+    }
+    std::string out;
+    out.reserve(1024);
+    long long before = g_live_allocs;
+    int parked = 0;
+    {
+        File * f = new File;
+#ifdef VERIF_SCHED_SHIM
+        vshim::Gate & g = vshim::gate();
+        g.owner = std::this_thread::get_id();
+        g.parked = 0; g.release = 0;
+        g.countdown = k;
+        g.mtx = static_cast<void *>(&f->m_compressedFile.m_mutex);
+#endif
+        try {
+            f->open(path.c_str(), std::ios_base::in);
+        } catch (Vector::BLF::Exception &) {
+#ifdef VERIF_SCHED_SHIM
+            g.mtx = nullptr; g.countdown = -1;
+#endif
+            delete f;
+            std::remove(path.c_str());
+            return "FK throws";
+        }
+#ifdef VERIF_SCHED_SHIM
+        for (int t = 0; t < 4000 && !g.parked.load(); t++) std::this_thread::sleep_for(std::chrono::microseconds(100));
+        parked = g.parked.load();
+        std::atomic<int> stop(0);
+        std::thread helper([&] {
+            while (!stop.load() && f->m_compressedFile.m_file.is_open()) std::this_thread::sleep_for(std::chrono::microseconds(20));
+            g.release = 1;
+        });
+#endif
+        g_progress++;
+        f->close();
+        g_progress++;
+        out += "FK ok parked="; out += std::to_string(parked);
+        out += " flags="; out += (f->is_open() ? '1' : '0'); out += (f->good() ? '1' : '0'); out += (f->eof() ? '1' : '0');
+#ifdef VERIF_SCHED_SHIM
+        stop = 1;
+        helper.join();
+        g.mtx = nullptr; g.countdown = -1;
+#endif
+        delete f;
+        g_progress++;
+    }
+    std::remove(path.c_str());
+    out += " leaked=" + std::to_string(static_cast<long long>(g_live_allocs) - before);
+    return out;
+}
+
 // FM <nobj> <objbytes> <cs> <sleep_us_per_read> : write nobj AppText-like objects, read them back slowly; peak live bytes while reading
 static std::string do_memory(const std::string & line) {
     std::istringstream ss(line);
@@ -649,6 +714,7 @@ int main(int argc, char ** argv) {
             else if (line.compare(0, 3, "FR ") == 0) r = do_read(line);
             else if (line.compare(0, 3, "FS ") == 0) r = do_write_delay(line);
             else if (line.compare(0, 3, "FE ") == 0) r = do_read_early(line);
+            else if (line.compare(0, 3, "FK ") == 0) r = do_close_at(line);
             else if (line.compare(0, 3, "FM ") == 0) r = do_memory(line);
             else if (line.compare(0, 3, "FH ") == 0) r = do_history(line);
             else if (line.compare(0, 3, "FN ") == 0) r = do_memory_write(line);
